@@ -487,7 +487,7 @@ def broken_obligations(run, b, found_input):
 
 
 # ---------------------------------------------------------------------- independent re-check (thorough tier)
-def coqchk(pid, timeout=1500):
+def coqchk(pid, timeout=3600):
     """Re-check Props/<pid>.vo and everything it depends on with the independent checker; -> dict(ok, axioms, summary)."""
     try:
         p = subprocess.run(["timeout", str(timeout), "coqchk", "-silent", "-o", "-R", "theories", "NV", "NV.Props.%s" % pid],
